@@ -184,6 +184,9 @@ pub fn run(env: &Env) {
                     ed_.push(ed("drop committed disclosure #0".into(), "cdisclosure-drop", true, |s: &Bp| { if s.cidx.is_empty() || s.dcmsgs.is_empty() { return None; } Some(Bp { cidx: s.cidx[1..].to_vec(), dcmsgs: s.dcmsgs[1..].to_vec(), ..s.clone() }) }));
                     ed_.push(ed("move last disclosed signer message into the committed list (messages only)".into(), "move-message-only", true, |s: &Bp| { let mut m = s.dmsgs.clone(); let x = m.pop()?; let mut c = s.dcmsgs.clone(); c.insert(0, x); Some(Bp { dmsgs: m, dcmsgs: c, ..s.clone() }) }));
                     ed_.push(ed("move first disclosed committed message into the signer list (messages only)".into(), "move-message-only", true, |s: &Bp| { if s.dcmsgs.is_empty() { return None; } let mut c = s.dcmsgs.clone(); let x = c.remove(0); let mut m = s.dmsgs.clone(); m.push(x); Some(Bp { dmsgs: m, dcmsgs: c, ..s.clone() }) }));
+                    // relabel a disclosed committed message as a signer message at its absolute position L + 1 + j (and the converse)
+                    ed_.push(ed("relabel committed disclosure #0 as a signer disclosure at position L+1+j".into(), "relabel-committed-as-signer", true, |s: &Bp| { if s.dcmsgs.is_empty() || s.cidx.is_empty() { return None; } let mut c = s.dcmsgs.clone(); let x = c.remove(0); let mut ci = s.cidx.clone(); let j = ci.remove(0); let pos = j.checked_add(s.l)?.checked_add(1)?; let mut m = s.dmsgs.clone(); let mut i = s.idx.clone(); let at = i.iter().position(|&y| y > pos).unwrap_or(i.len()); m.insert(at, x); i.insert(at, pos); Some(Bp { dmsgs: m, idx: i, dcmsgs: c, cidx: ci, ..s.clone() }) }));
+                    ed_.push(ed("relabel signer disclosure #last as a committed disclosure at index i-L-1 (wrapping)".into(), "relabel-signer-as-committed", false, |s: &Bp| { let mut m = s.dmsgs.clone(); let x = m.pop()?; let mut i = s.idx.clone(); let xi = i.pop()?; let j = xi.wrapping_sub(s.l).wrapping_sub(1); let mut c = s.dcmsgs.clone(); let mut ci = s.cidx.clone(); c.push(x); ci.push(j); Some(Bp { dmsgs: m, idx: i, dcmsgs: c, cidx: ci, ..s.clone() }) }));
                     ed_.push(ed("move signer disclosure #last to the committed side (message and index)".into(), "move-disclosure", true, |s: &Bp| { let mut m = s.dmsgs.clone(); let x = m.pop()?; let mut i = s.idx.clone(); let xi = i.pop()?; if s.cidx.contains(&xi) { return None; } let mut c = s.dcmsgs.clone(); let mut ci = s.cidx.clone(); let pos = ci.iter().position(|&y| y > xi).unwrap_or(ci.len()); c.insert(pos, x); ci.insert(pos, xi); Some(Bp { dmsgs: m, idx: i, dcmsgs: c, cidx: ci, ..s.clone() }) }));
                     ed_.push(ed("move committed disclosure #0 to the signer side (message and index)".into(), "move-disclosure", true, |s: &Bp| { if s.dcmsgs.is_empty() || s.cidx.is_empty() { return None; } let mut c = s.dcmsgs.clone(); let x = c.remove(0); let mut ci = s.cidx.clone(); let xi = ci.remove(0); if s.idx.contains(&xi) { return None; } let mut m = s.dmsgs.clone(); let mut i = s.idx.clone(); let pos = i.iter().position(|&y| y > xi).unwrap_or(i.len()); m.insert(pos, x); i.insert(pos, xi); Some(Bp { dmsgs: m, idx: i, dcmsgs: c, cidx: ci, ..s.clone() }) }));
                     for s2 in suites() { for kk in keys(s2) { let pk = kk.pk.clone(); ed_.push(ed(format!("pk := {}/{}", s2.name(), kk.id), "pk-replace", kk.id == "k1", move |s: &Bp| { if s.pk == pk { return None; } Some(Bp { pk: pk.clone(), ..s.clone() }) })); } }
@@ -200,9 +203,18 @@ pub fn run(env: &Env) {
                     let cls = if v.classes.is_empty() { "honest".to_string() } else { v.classes.join("+") };
                     let det = json!({"base": det0, "edits": v.path, "L": v.state.l.to_string(), "idx": format!("{:?}", v.state.idx), "cidx": format!("{:?}", v.state.cidx), "dmsgs": hexv(&v.state.dmsgs), "dcmsgs": hexv(&v.state.dcmsgs)});
                     if !v.state.in_contract() {
+                        // not strictly ascending: refusal is fine; acceptance only if every claimed (list, position, message) pair is disclosed by the proof
                         env.ctx.step();
-                        if let O::Panic(p) = &got { env.ctx.violation(&format!("C06:out-of-contract:{}:panic", cls), &format!("verifier panicked: {}", p), env.case(&r.id, det)); }
-                        env.ctx.class("out-of-contract (crash-only)");
+                        let tp: Vec<(usize, &Vec<u8>)> = base.idx.iter().copied().zip(base.dmsgs.iter()).collect();
+                        let tc: Vec<(usize, &Vec<u8>)> = base.cidx.iter().copied().zip(base.dcmsgs.iter()).collect();
+                        let claim_true = v.state.dmsgs.len() <= v.state.idx.len() && v.state.dcmsgs.len() <= v.state.cidx.len() && v.state.idx.iter().copied().zip(v.state.dmsgs.iter()).all(|p| tp.contains(&p)) && v.state.cidx.iter().copied().zip(v.state.dcmsgs.iter()).all(|p| tc.contains(&p))
+                            && v.state.l == base.l && v.state.pk == base.pk && v.state.header == base.header && v.state.ph == base.ph && v.state.proof == base.proof && v.state.suite == base.suite && v.state.plain_iface == base.plain_iface;
+                        match &got {
+                            O::Panic(p) => env.ctx.violation(&format!("C06:unordered-index-list:{}:panic", cls), &format!("verifier panicked: {}", p), env.case(&r.id, det)),
+                            O::Ok(_) if !claim_true => env.ctx.violation(&format!("C06:unordered-index-list:{}:accepted", cls), &format!("blind_proof_verify accepted a claim with a pair that is not disclosed by the proof, after [{}]", v.path.join("; ")), env.case(&r.id, det)),
+                            _ => {}
+                        }
+                        env.ctx.class(&format!("unordered-index-list:{}", got.kind()));
                         env.ctx.trace();
                         return;
                     }
